@@ -186,6 +186,14 @@ func vSkeleton(id int) []string {
 			ks = append(ks, string(b))
 		}
 		return vUniqSortedBig(ks)
+	case 19: // 12 first bytes x 12 second bytes: a 257-bit root over twelve 257-bit nodes
+		var ks []string
+		for a := 0; a < 12; a++ {
+			for b := 0; b < 12; b++ {
+				ks = append(ks, string([]byte{byte('a' + a), byte('a' + b)}))
+			}
+		}
+		return ks
 	case 17, 18: // a 257-bit root with all 256 byte branches (18: and the empty key: every label bit set)
 		return vFullByteFan(id == 18)
 	case 14: // a key that is also an inner node with all 16 high-nibble branches (17 labels)
@@ -396,6 +404,13 @@ func vConcreteValues(c *vT, runs int) {
 	n := c.n
 	val := func(i int) int {
 		if runs <= 0 {
+			return i*7 + 3
+		}
+		if runs >= 100 {
+			// the first runs-100 keys share one value, the rest are distinct
+			if i < runs-100 {
+				return 3
+			}
 			return i*7 + 3
 		}
 		return (i/runs)*7 + 3
